@@ -209,6 +209,10 @@ impl Screen {
 
         self.dirty.extend(0..lines);
 
+        // The scrolling region is reset below; dropping lines must already
+        // ignore it, otherwise delete_lines refuses to act outside it.
+        self.margins = None;
+
         if lines < self.lines {
             self.save_cursor();
             self.cursor_position(Some(0), Some(0));
